@@ -353,6 +353,75 @@ class Gen(object):
         return ['data', hexin(d)]
 
 
+class Sweep(object):
+    """a broker that behaves (accept, whole OP_INFO, a fixed conversation of PUBLISH / ERROR frames - one split
+    across two reads, one whose callback publishes, one whose callback subscribes -, sends succeed) except for the
+    FAULTS of `plan`: at the i-th blocking call of the client the answer is a failure of that call (refused /
+    eof, error, timeout / send timeout, error) or stop() is called first.  Every blocking call of the
+    conversation is a fault point."""
+
+    def __init__(self, plan, limit=60):
+        self.plan = dict(plan)          # call index -> fault
+        self.n = -1
+        self.limit = limit
+        self.nonce = 0
+        m2 = P.msgpublish('bob', 'ch2', b'x second')
+        self.conv = [P.msgpublish('a', 'c', b'x m1'), m2[:7], m2[7:] + P.msgerror('nope'), P.msgpublish('a', 'c', b'Preply-me'),
+                     P.msgpublish('a', 'c', b'Uch2'), P.msgpublish('a', 'c', b'x m5')]
+        self.pos = 0
+        self.stopped_injected = set()
+
+    def __call__(self, kind, eng, sock, pc):
+        self.n += 1 if (self.n, 'stop') not in self.stopped_injected or True else 0
+        if self.n > self.limit:
+            return None
+        f = self.plan.get(self.n)
+        if f == 'stop' and self.n not in self.stopped_injected:
+            self.stopped_injected.add(self.n)
+            self.n -= 1                 # the call is still to be answered
+            return ['stop']
+        if kind == 'connect':
+            return ['refuse'] if f == 'fail' else ['connok']
+        if kind == 'send':
+            return ['timeout'] if f == 'fail' else (['sockerr'] if f == 'fail2' else ['sendok'])
+        if f in ('fail', 'fail2', 'fail3'):
+            return [{'fail': 'eof', 'fail2': 'sockerr', 'fail3': 'timeout'}[f]]
+        if eng.in_auth:
+            self.nonce += 1
+            self.pos = 0 if self.pos < len(self.conv) else self.pos     # a new connection: the broker starts over
+            return ['data', hexin(P.msginfo('hp', bytes([self.nonce & 255, 1, 2, 3])))]
+        if self.pos >= len(self.conv):
+            return None                 # the conversation is over: end of the tape
+        d = self.conv[self.pos]
+        self.pos += 1
+        return ['data', hexin(d)]
+
+
+def sweep_cases(double=False):
+    base_calls = 14
+    kinds = ['fail', 'fail2', 'fail3', 'stop']
+    plans = [[(i, f)] for i in range(base_calls) for f in kinds]
+    if double:
+        plans += [[(i, f), (j, g)] for i in range(base_calls) for j in range(i + 1, base_calls + 4) for f in ('fail', 'stop') for g in ('fail', 'fail3')][::3]
+    for plan in plans:
+        for naddr in (1, 2):
+            picker = Sweep(plan)
+            eng = Eng('me', 'secret', naddr, picker)
+            try:
+                try:
+                    eng.app(['new'])
+                    eng.app(['sub', hexin(b'c')])
+                    eng.app(['pub', hexin(b'c'), hexin(b'hello')])
+                    eng.app(['run'])
+                    if not eng.crashed:
+                        eng.app(['run'])    # returns at once if stopped, otherwise goes on reading
+                except TapeEnd:
+                    pass
+            finally:
+                eng.restore()
+            yield plan, naddr, eng
+
+
 class Replay(object):
     def __init__(self, events):
         self.events = list(events)
@@ -601,6 +670,16 @@ def run(tier, seed, drv, prop=None):
         script = run_case(res, drv, rng, tier, profiles[k % len(profiles)])
         res.nontriv([json.dumps(script['events'])[:4000]])
         res.sample({'events': [[str(x)[:40] for x in e] for e in script['events'][:16]]}, limit=3)
+    if prop in (None, 'C13', 'C11', 'C12'):
+        for plan, naddr, eng in sweep_cases(double=(tier == 'thorough')):
+            events = eng.events[:len(eng.lines)]
+            script = {'client': 'blocking-client', 'ident': 'me', 'secret': 'secret', 'naddr': naddr, 'events': events,
+                      'legal': True, 'sweep': plan}
+            monitors(res, ('me', 'secret'), eng, script)
+            res.evaluations += 1
+            res.note('sweep')
+            res.nontriv([json.dumps(events)[:4000]])
+            compare(res, drv, script, events, eng.lines)
     res.assumptions += [
         'blocking Client: makesocket() is overridden to return a scripted socket; hpfeeds.client.socket/time are replaced by shims (getaddrinfo returns 1-2 addresses, sleep is an observation); sendall is all-or-error',
         'message_callback behaviour is a table on the first payload byte (stop / subscribe / publish from inside the callback), the same table in the Lean driver; error_callback does nothing',
